@@ -9,6 +9,7 @@ import (
 	"fmt"
 	"os"
 	"runtime/debug"
+	"sort"
 	"strings"
 	"time"
 
@@ -616,6 +617,8 @@ func (g *gen) validMove(s *shadow) call {
 	}
 }
 
+var nilKinds = []string{"nil-checks", "nil-checks-elem", "nil-seq", "nil-action"}
+
 var misuseKinds = []string{"wl-checks", "wl-block", "wl-seq", "wl-action", "dup-plan", "dup-block", "name-block", "name-seq", "name-action",
 	"nil-checks", "nil-checks-elem", "nil-seq", "nil-action", "badtype", "up-root", "reset-blank", "reset-nilgid"}
 
@@ -739,7 +742,7 @@ func (g *gen) anyCall() call {
 
 // session: New, a valid prefix, possibly one injected misuse at a uniformly chosen applicable position,
 // Plan(), possibly calls after it, possibly Reset and a second epoch.
-func (g *gen) session(family string) (s session, injected string) {
+func (g *gen) session(family string) (s session, injected, second string, nInjected int) {
 	s.New = g.mkReset(true)
 	switch family {
 	case "new-invalid":
@@ -751,7 +754,7 @@ func (g *gen) session(family string) (s session, injected string) {
 		for i := 0; i < n; i++ {
 			s.Calls = append(s.Calls, g.anyCall())
 		}
-		return s, "random-stream"
+		return s, "random-stream", "", 0
 	}
 	calls, before, _ := g.epoch(g.r.Range(2, 18))
 	var shadows []shadow
@@ -781,9 +784,19 @@ func (g *gen) session(family string) (s session, injected string) {
 		}
 	}
 	if family == "inject" {
-		// kind first (uniform), then the position uniformly among those where it applies
-		for try := 0; try < 40 && injected == ""; try++ {
+		// 1-3 misuses (the later ones hit a builder that already holds the first misuse's error);
+		// for each: kind first (uniform), then the position uniformly among those where it applies
+		want := []int{1, 1, 2, 2, 3}[g.r.Intn(5)]
+		type ins struct {
+			at int
+			c  call
+		}
+		var inss []ins
+		for try := 0; try < 60 && len(inss) < want; try++ {
 			kind := misuseKinds[g.r.Intn(len(misuseKinds))]
+			if len(inss) > 0 && g.r.Chance(0.4) {
+				kind = nilKinds[g.r.Intn(len(nilKinds))] // nil arguments are the calls most tempting to reject "early"
+			}
 			var pos []int
 			for i, sh := range shadows {
 				if !sh.dead {
@@ -797,15 +810,27 @@ func (g *gen) session(family string) (s session, injected string) {
 			}
 			at := pos[g.r.Intn(len(pos))]
 			c, _ := g.misuse(kind, shadows[at])
-			calls = append(calls[:at], append([]call{c}, calls[at:]...)...)
-			injected = kind
+			inss = append(inss, ins{at, c})
 		}
+		sort.SliceStable(inss, func(i, j int) bool { return inss[i].at < inss[j].at })
+		for k := len(inss) - 1; k >= 0; k-- { // insert from the back so that positions stay valid
+			at := inss[k].at
+			calls = append(calls[:at], append([]call{inss[k].c}, calls[at:]...)...)
+		}
+		for k, in := range inss {
+			if k == 0 {
+				injected = in.c.Why
+			} else if k == 1 {
+				second = in.c.Why
+			}
+		}
+		nInjected = len(inss)
 	}
 	if len(calls) > 25 {
 		calls = calls[:25]
 	}
 	s.Calls = calls
-	return s, injected
+	return s, injected, second, nInjected
 }
 
 // misuseProbe tells whether a kind applies at a position without consuming labels or randomness.
@@ -855,6 +880,42 @@ func exhaustive() (out []session, names []string) {
 			out, names = append(out, s), append(names, "badtype-x-level")
 		}
 	}
+	// first misuse kind x second misuse kind: the second call is itself a misuse (incl. the nil argument of
+	// every Add* method) and meets a builder that already holds the first misuse's error
+	at := map[string]struct {
+		prefix func() []call
+		sh     shadow
+	}{
+		"wl-checks":       {levels["seq"], shadow{level: "seq"}},
+		"wl-block":        {levels["block"], shadow{level: "block"}},
+		"wl-seq":          {levels["plan"], shadow{level: "plan"}},
+		"wl-action":       {levels["plan"], shadow{level: "plan"}},
+		"dup-plan":        {func() []call { return []call{plain(g.mkChecks(1)), up} }, shadow{level: "plan", pgroups: map[int]bool{1: true}}},
+		"dup-block":       {func() []call { return []call{plain(g.mkBlock()), plain(g.mkChecks(1)), up} }, shadow{level: "block", bgroups: map[int]bool{1: true}}},
+		"name-block":      {levels["plan"], shadow{level: "plan"}},
+		"name-seq":        {levels["block"], shadow{level: "block"}},
+		"name-action":     {levels["seq"], shadow{level: "seq"}},
+		"nil-checks":      {levels["plan"], shadow{level: "plan"}},
+		"nil-checks-elem": {levels["block"], shadow{level: "block"}},
+		"nil-seq":         {levels["block"], shadow{level: "block"}},
+		"nil-action":      {levels["pchecks"], shadow{level: "pchecks"}},
+		"badtype":         {levels["plan"], shadow{level: "plan"}},
+		"up-root":         {levels["plan"], shadow{level: "plan"}},
+		"reset-blank":     {levels["block"], shadow{level: "block"}},
+		"reset-nilgid":    {levels["block"], shadow{level: "block"}},
+	}
+	for _, k1 := range misuseKinds {
+		for _, k2 := range misuseKinds {
+			s := newS()
+			c1, ok1 := g.misuse(k1, at[k1].sh)
+			c2, ok2 := g.misuse(k2, at[k2].sh)
+			if !ok1 || !ok2 {
+				panic("exhaustive: misuse kind not applicable at its own position: " + k1 + " " + k2)
+			}
+			s.Calls = append(at[k1].prefix(), c1, plain(g.mkAction()), c2, plain(g.mkAction()), plan)
+			out, names = append(out, s), append(names, "x:"+k1+">"+k2)
+		}
+	}
 	return out, names
 }
 
@@ -872,9 +933,14 @@ func main() {
 	exh, exhNames := exhaustive()
 	for i := 0; i < *n+len(exh); i++ {
 		var s session
-		var injected, family string
+		var injected, second, family string
+		nInjected := 0
 		if i < len(exh) {
 			s, family, injected = exh[i], "exhaustive", exhNames[i]
+			if strings.HasPrefix(injected, "x:") {
+				ab := strings.SplitN(injected[2:], ">", 2)
+				injected, second, nInjected = "x:"+ab[0], ab[1], 2
+			}
 		} else {
 			j := i - len(exh)
 			g := &gen{r: root.Fork(uint64(j))}
@@ -887,7 +953,7 @@ func main() {
 			case k == 6 || k == 7:
 				family = "random"
 			}
-			s, injected = g.session(family)
+			s, injected, second, nInjected = g.session(family)
 		}
 		so := runSession(s)
 		callTerms := make([]string, len(s.Calls))
@@ -915,7 +981,7 @@ func main() {
 			Coq:        term,
 			Nontrivial: len(s.Calls) >= 3 && (so.objects >= 4 || so.firstErr != ""),
 			Hash:       core.Hash(term),
-			Dist: map[string]any{"len": len(s.Calls), "injected": injected, "first_error": first, "emitted": so.emitted,
+			Dist: map[string]any{"len": len(s.Calls), "injected": injected, "second_misuse": second, "misuses_injected": nInjected, "first_error": first, "emitted": so.emitted,
 				"objects": so.objects, "call_kinds": kinds},
 			Input:    s,
 			Observed: so.obs,
